@@ -127,6 +127,7 @@ theorem pstab_step (l : Life.S) (r : Rec) : PStab l (Life.step l r) := by
     · exact PStab.refl l
     · exact pstab_ensureThread _ pid tid
   | sched pid tid t km ip chain => exact pstab_ensureThread _ pid tid
+  | otherEvent pid tid t km ip chain => exact pstab_ensureThread _ pid tid
   | exit pid tid t =>
     rw [lstep_exit]
     split
